@@ -304,6 +304,17 @@ func sortClass(l []Val) string {
 	return "open"
 }
 
+// typeNameOf: what type(x) gives for a member ("" when the model does not know).
+func typeNameOf(v Val) string {
+	switch v.K {
+	case "int", "float", "string", "bool", "nil", "byte", "list", "set", "map":
+		return v.K
+	case "bytes":
+		return "byte_slice"
+	}
+	return ""
+}
+
 func stableSorted(l []Val) []Val {
 	r := append([]Val{}, l...)
 	sort.SliceStable(r, func(a, b int) bool {
@@ -500,6 +511,19 @@ func (m *model) applyList(c *cont, op *Op, ok bool, elems []string) outcome {
 				return o
 			}
 			return outcome{skip: true}
+		case "sorted_keep", "sorted_by_type":
+			// sorted(T, less): a new list, stable; "keep": less is never true, so the order stays;
+			// "by_type": less compares the members' type names
+			r := append([]Val{}, c.L...)
+			if op.Name == "sorted_by_type" {
+				for _, e := range r {
+					if typeNameOf(e) == "" {
+						return outcome{skip: true}
+					}
+				}
+				sort.SliceStable(r, func(a, b int) bool { return typeNameOf(r[a]) < typeNameOf(r[b]) })
+			}
+			return okFresh(freshList(r, "sorted"))
 		case "reversed":
 			r := make([]Val, n)
 			for i, e := range c.L {
